@@ -61,6 +61,7 @@ type cTx struct {
 	Ending    int
 	CutInBody bool // endDisconnectMidData: where the connection breaks
 	NoReset   bool // no accepted recipient: go on with the next MAIL without DATA/RSET
+	EhloFails bool // endEhloMidTx: an early (connection-level) check refuses the repeated greeting
 	Pause     bool // the client idles 6 s (longer than the limit time-out) before the body
 	Chunks    int  // 0: DATA; n>0: BDAT in n chunks
 	AuthAt    int  // 0: no AUTH in this transaction; 1 before MAIL, 2 after MAIL, 3 after the RCPTs
@@ -116,6 +117,28 @@ func (a *scriptedAuth) AuthPlain(user, pass string) error {
 	return module.ErrUnknownCredentials
 }
 
+// earlyCheck makes a scripted check an early (connection-level) check too: it
+// is asked at every greeting, before a session exists, and objects when the
+// client about to greet again asked for it.
+type earlyCheck struct {
+	*actors.ScriptedCheck
+	w *world
+}
+
+func (e earlyCheck) CheckConnection(ctx context.Context, state *module.ConnState) error {
+	simrt.Point("chk:"+e.Label, "early")
+	addr := ""
+	if state != nil && state.RemoteAddr != nil {
+		addr = state.RemoteAddr.String()
+	}
+	if e.w.failEarly[addr] {
+		delete(e.w.failEarly, addr)
+		e.w.s.Stat("fault_check_early_reject")
+		return actors.MkErr(actors.Temp, 0, "early check "+e.Label)
+	}
+	return nil
+}
+
 type client struct {
 	name string
 	ip   string
@@ -138,6 +161,8 @@ type world struct {
 	family   int
 	authMode int // 0: no provider; 1: provider, authentication optional; 2: submission endpoint
 	authp    *scriptedAuth
+	// failEarly: client address -> the next early check for that connection fails
+	failEarly map[string]bool
 	tgts     map[string]*actors.ScriptedTarget
 	plans    map[string][]*actors.StagePlan
 	checks   []*actors.ScriptedCheck
@@ -206,6 +231,7 @@ func (w *world) build() error {
 	if w.a.Prop == "C16" {
 		faultNum = 8
 	}
+	w.failEarly = map[string]bool{}
 	w.tgts = map[string]*actors.ScriptedTarget{}
 	w.plans = map[string][]*actors.StagePlan{}
 	w.cplans = map[string][]*actors.CheckPlan{}
@@ -245,7 +271,11 @@ func (w *world) build() error {
 			return &actors.CheckPlan{}
 		}
 		w.checks = append(w.checks, c)
-		module.RegisterInstance(c, nil)
+		if i == 0 {
+			module.RegisterInstance(earlyCheck{c, w}, nil)
+		} else {
+			module.RegisterInstance(c, nil)
+		}
 		delete(module.Initialized, n)
 		checkNodes = append(checkNodes, node("&"+n))
 		for j := 0; j < 8; j++ {
@@ -423,6 +453,7 @@ func (w *world) genClients() {
 			}
 			tx.CutInBody = s.T.Choose(st, 2) == 1
 			tx.NoReset = s.T.Choose(st, 3) == 0
+			tx.EhloFails = s.T.Choose(st, 2) == 0
 			tx.Pause = s.T.Choose(st, 6) == 0
 			if s.T.Choose(st, 3) == 0 {
 				tx.Chunks = 1 + s.T.Choose(st, 3)
@@ -527,7 +558,21 @@ func (w *world) runClient(c *client) {
 		case endEhloMidTx:
 			// a second EHLO/LHLO resets the protocol state (RFC 5321 4.1.4)
 			s.Stat("client_ehlo_mid_transaction")
-			cl.Cmd(hello)
+			if tx.EhloFails && len(w.checks) > 0 {
+				w.failEarly[c.ip] = true
+			}
+			if hr := cl.Cmd(hello); hr.Err == "" && !hr.Positive() {
+				// the greeting was refused (early check): the server keeps the
+				// old session. A client that goes on regardless, and leaves
+				s.Stat("client_ehlo_refused_mid_transaction")
+				if len(tx.Rcpts) > 0 {
+					cl.Cmd("RCPT TO:<" + tx.Rcpts[0] + ">")
+				}
+				cl.Cmd("QUIT")
+				conn.Close()
+				return
+			}
+			delete(w.failEarly, c.ip)
 			if w.lmtp {
 				for _, rr := range tx.RcptReplies {
 					if rr.OK() {
